@@ -70,6 +70,9 @@ def generate(seed: int, run: int, tier: str) -> dict:
     for _ in range(n):
         if rng.random() < p_perturb:
             k = rng.choice(["jump", "jump", "bulk", "clear_cache", "flag_off", "flag_on", "import", "churn", "drop", "failed_docs_page"])
+            if rng.random() < 0.15:
+                ops.append({"op": "keep_rebuilt", "src": rng.randrange(100)})
+                continue
             if k == "failed_docs_page":
                 ops.append({"op": "failed_docs_page", "m": rng.choice(["symplyphysics.laws.dynamics.acceleration_is_force_over_mass", "symplyphysics.definitions.density_from_mass_volume", "symplyphysics.laws.kinematics.position_via_constant_acceleration_and_time", "symplyphysics.laws.thermodynamics.gas_pressure_change_from_temperature", "symplyphysics.laws.optics.lens_focus_from_object_and_image"])})
                 continue
@@ -102,6 +105,7 @@ def generate(seed: int, run: int, tier: str) -> dict:
                     op["arg_refs"] = [rng.randrange(100) for _ in range(op["nargs"])]
         elif kind == "quantity":
             op.update(value=rng.choice([1, 2, 3, 5, -4, 0.5, 1000]), unit=rng.choice(UNITS), name=rng.choice(name_pool), latex=rng.choice(LATEX), prefix=rng.choice([None, None, "kilo", "milli"]))
+            op["override"] = rng.random() < 0.25  # a bare number with `dimension=` given explicitly
         elif kind == "quantity_of":
             op.update(src=rng.randrange(100), name=rng.choice(name_pool), latex=rng.choice(LATEX))
         elif kind == "wrapper":
@@ -250,6 +254,11 @@ def _check_record_inner(rec, where: str) -> None:
         for key in ("positive", "negative", "real", "integer", "nonnegative"):
             if rec["extra"]["src_assume"].get(key) is True and getattr(applied, "is_" + key) is not True:
                 raise Violation(where, "clone_as_function:assumptions", f"clone_as_function of a source with {key}=True gives a function whose value has is_{key}={getattr(applied, 'is_' + key)} (no assumptions were passed, so the source's should be kept)")
+    if rec["scale"] is not None and rec["dim"] is not None and "quantity:si-dimension" not in flagged:
+        from sympy.physics.units.systems.si import SI  # pylint: disable=import-outside-toplevel
+        si_dim = SI.get_quantity_dimension(o)
+        if si_dim != rec["dim"] and not _same_dim(si_dim, rec["dim"]):
+            raise Violation(where, "quantity:si-dimension", f"quantity {disp!r}: the SI registry holds dimension {si_dim} for it, its own attribute and its creation say {rec['dim']}")
     if rec["scale"] is not None:
         import sympy as sp  # pylint: disable=import-outside-toplevel
         sf = complex(sp.N(o.scale_factor))
@@ -448,6 +457,11 @@ def _final_checks(model: Model) -> list[str]:
             a = abs(r["obj"])
         except Exception as e:  # pylint: disable=broad-except
             raise Violation("independence", "abs:quantity", f"abs() of quantity {r['display']!r} raised {type(e).__name__}: {str(e)[:120]}") from None
+        if hasattr(a, "dimension") and r["dim"] is not None:
+            from sympy.physics.units.systems.si import SI  # pylint: disable=import-outside-toplevel
+            si_dim = SI.get_quantity_dimension(a)
+            if si_dim != r["dim"] and not _same_dim(si_dim, r["dim"]):
+                raise Violation("independence", "abs:quantity-dimension", f"abs() of a quantity of dimension {r['dim']} is registered in the SI system with dimension {si_dim}")
         sf = complex(sp.N(getattr(a, "scale_factor", a)))
         want = abs(r["scale"])
         if abs(sf - want) > 1e-9 * max(1.0, want):
@@ -464,6 +478,21 @@ def _final_checks(model: Model) -> list[str]:
             bad = [m.group(0) for m in INTERNAL.finditer(text) if m.group(0) not in allowed]
             if bad:
                 raise Violation("print", f"code_str:{wrap.__name__}", f"code_str of {wrap.__name__} around an expression with display names shows generated internal name {bad[0]!r}: {text[:200]!r}")
+    from symplyphysics.docs.printer_latex import latex_str  # pylint: disable=import-outside-toplevel
+    for phase in (0, 1):
+        for r in model.recs:
+            plain = r["latex"] is None and str(r["display"] or "").isalpha()  # e.g. "m": its LaTeX form is itself
+            if r["kind"] == "symbol" and (r["latex"] is not None or plain) and r["src"] is None:
+                got = latex_str(r["obj"])
+                if got != str(r["obj"].display_latex):
+                    raise Violation("print", "latex_str:symbol", f"latex_str of a symbol whose LaTeX name is {str(r['obj'].display_latex)!r} gives {got!r}" + (" after functions with declared arguments were printed" if phase else ""))
+        if phase == 0:
+            for r in model.recs:
+                if r["kind"] == "function" and (r.get("extra") or {}).get("declared"):
+                    try:
+                        latex_str(r["obj"])
+                    except Exception:  # pylint: disable=broad-except
+                        pass
     # indexed sums and products over indexed symbols, with and without an applied function inside
     gi = sx_global_index()
     idx_terms = [r for r in model.recs if r["kind"] == "indexed"][:3]
@@ -497,11 +526,33 @@ def _final_checks(model: Model) -> list[str]:
                 e3 = fn(E2)
             except Exception:  # pylint: disable=broad-except
                 continue
+            by_name = {str(r["obj"].name): r for r, _ in rebuilt_terms if r["kind"] == "indexed"}
+            for base in e3.atoms(sp.IndexedBase):
+                r0 = by_name.get(str(base.name))
+                if r0 is None:
+                    continue
+                if getattr(base, "dimension", None) != r0["obj"].dimension:
+                    raise Violation("print", f"rebuilt-indexed:dimension:{how}", f"after {how}() the indexed symbol {r0['obj'].display_name!r} has dimension {getattr(base, 'dimension', None)}, it was created with {r0['obj'].dimension}")
+                if str(getattr(base, "display_name", "")) != str(r0["obj"].display_name):
+                    raise Violation("print", f"rebuilt-indexed:display_name:{how}", f"after {how}() the indexed symbol {r0['obj'].display_name!r} reads display name {getattr(base, 'display_name', None)!r}")
             for printer_name, printer in (("print_expression", print_expression), ("code_str", code_str)):
                 text = " ;; ".join(printer(a) for a in sp.Add.make_args(e3))
                 bad = [m.group(0) for m in INTERNAL.finditer(text) if m.group(0) not in allowed and not m.group(0).startswith("SYS")]
                 if bad:
                     raise Violation("print", f"{printer_name}:after-{how}", f"{printer_name} shows generated internal name {bad[0]!r} after {how}() of an expression whose objects all have display names: {text[:240]!r}")
+    # expressions that were rebuilt earlier and kept by the user, while the original indexed symbol may
+    # have been dropped (and collected) since: a further rebuild must still know its names and dimension
+    for kept in getattr(model, "kept", []):
+        try:
+            e4 = kept["expr"].doit()
+        except Exception:  # pylint: disable=broad-except
+            continue
+        for base in e4.atoms(sp.IndexedBase):
+            if str(base.name) != kept["name"]:
+                continue
+            if str(getattr(base, "display_name", "")) != kept["display"] or getattr(base, "dimension", None) != kept["dim"]:
+                alive = kept["name"] in {str(r["obj"].name) for r in model.recs if r["kind"] == "indexed"}
+                raise Violation("print", "kept-rebuilt-indexed", f"an expression rebuilt earlier and kept by the user was rebuilt again: its indexed symbol {kept['display']!r} now reads display name {getattr(base, 'display_name', None)!r} and dimension {getattr(base, 'dimension', None)} (created with {kept['dim']}; the original object was {'still alive' if alive else 'dropped'})")
     for r in model.recs:
         if r["kind"] == "function" and (r.get("extra") or {}).get("declared"):
             d = str(r["obj"].display_name)
@@ -550,6 +601,16 @@ def _apply(op: dict, model: Model, state: dict):  # pylint: disable=too-many-bra
         clear_cache()
         f["clear_cache"] += 1
         return "clear"
+    if k == "keep_rebuilt":
+        cands = [r for r in model.recs if r["kind"] == "indexed" and not r["defaulted"]]
+        if not cands or not global_parameters.evaluate:
+            return "skipped"
+        r = cands[op["src"] % len(cands)]
+        e = (3 * r["obj"][sp.Idx("i")] + 1).doit()
+        model.kept = getattr(model, "kept", [])
+        model.kept.append({"expr": e, "name": str(r["obj"].name), "display": str(r["obj"].display_name), "dim": r["obj"].dimension})
+        f["keep_rebuilt"] = f.get("keep_rebuilt", 0) + 1
+        return "keep_rebuilt"
     if k == "failed_docs_page":
         # a documentation page of a law whose source raises half-way (after importing a catalogue
         # module and creating symbols); the caller catches the error and carries on
@@ -663,8 +724,12 @@ def _apply(op: dict, model: Model, state: dict):  # pylint: disable=too-many-bra
         if op.get("prefix"):
             expr = expr * getattr(sx.prefixes, op["prefix"])
             scale *= {"kilo": 1000, "milli": sp.Rational(1, 1000)}[op["prefix"]]
-        o = sx.Quantity(expr, display_symbol=name, display_latex=latex)
         dim = {"meter": units.length, "second": units.time, "kilogram": units.mass, "kelvin": units.temperature}[op["unit"]]
+        if op.get("override") and not op.get("prefix"):
+            scale = sp.Rational(str(op["value"]))
+            o = sx.Quantity(op["value"], display_symbol=name, display_latex=latex, dimension=dim)
+        else:
+            o = sx.Quantity(expr, display_symbol=name, display_latex=latex)
         model.add("quantity", o, name, latex if latex else None, dim, None, scale=complex(scale), defaulted=not name, extra={"default_display": lambda o: str(o.name), "value": scale})
     elif k == "wrapper":
         from symplyphysics.core.operations import symbolic  # pylint: disable=import-outside-toplevel
